@@ -25,7 +25,7 @@ open(patch, "w").write(diff)
 sh("/tmp/seed/build_ext.sh %s" % wt)
 c1, o1 = sh("/venv/bin/python ../%s_demo.py" % ID, cwd=wt)
 out["ran"].append("demo with change: exit %d" % c1)
-c2, o2 = sh("/venv/bin/python -m pytest -q -p no:cacheprovider --timeout=900 -n 8 2>&1 | tail -1", cwd=wt)
+c2, o2 = sh("timeout 420 /venv/bin/python -m pytest -q -p no:cacheprovider --timeout=900 -n 8 2>&1 | tail -1", cwd=wt)
 out["ran"].append("existing suite with change: %s" % o2.strip())
 sh("git apply -R %s" % patch, cwd=wt); sh("/tmp/seed/build_ext.sh %s" % wt)   # (git stash is shared between worktrees)
 c3, o3 = sh("/venv/bin/python ../%s_demo.py" % ID, cwd=wt)
